@@ -1,7 +1,7 @@
 CONSTANTS
   MaxThreads = 3
   MaxPasses = 6
-  MaxCmds = 6
+  MaxCmds = 7
 SPECIFICATION MSpec
 INVARIANT TypeOK
 INVARIANT OneRunner
